@@ -161,6 +161,7 @@ package binary
 // labels; every label named by group_left/group_right is set to the one side's value, or removed when
 // the one side lacks it; the label set is produced by labels.Builder (sorted, no repeated names).
 //@ func buildOutputSeries
+//@   at labels.(*Builder).Labels assert[C17] result-labels-are-built-into-fresh-memory: isnil($res)
 //@   ensures[C05,C18] output-id: result.ID == seriesID
 //@   ensures[C05] without-included-labels-the-many-sides-labels: len(includeLabels) == 0 ==> sameslice(result.Metric, highCardSeries.Metric)
 //@   ensures[C05,C19] with-included-labels-built-by-the-label-builder: len(includeLabels) > 0 ==> ncalls("labels.(*Builder).Labels") == 1 && sameslice(result.Metric, callres("labels.(*Builder).Labels", 1))
@@ -224,6 +225,7 @@ package binary
 //  - the metric name is deleted from the result labels unless it is kept;
 //  - one-to-one results additionally keep only L (on) or lose L (ignoring); many-to-one results keep the labels.
 //@ func signature
+//@   at labels.(*Builder).Labels assert[C17] result-labels-are-built-into-fresh-memory: isnil($res)
 //@   assigns elems(string)@grouping
 //@   ensures[C05] ignoring-key-covers-everything-but-the-listed-labels-and-the-name: without ==> ncalls("labels.(Labels).HashWithoutLabels") == 1 && ncalls("labels.(Labels).HashForLabels") == 0 &&
 //@       result0 == callres("labels.(Labels).HashWithoutLabels", 1, 0)
